@@ -105,7 +105,7 @@ def _fill_topdown(cinco, schema, d, root, validators):
             typ = cinco.make_type(sub, "T_" + key, key_filename=_keyfile(f, root))
             setattr(schema, key, typ)
         elif f["kind"] == "virtual":
-            setattr(schema, key, cinco.VirtualField(lambda cfg: 42))
+            setattr(schema, key, cinco.VirtualField(lambda cfg: 42, sensitive=bool(f.get("sensitive"))))
         elif f["kind"] == "list" and f["item"]["kind"] == "schema":
             item = build_schema_topdown(cinco, f["item"], root, validators)
             if f["item"].get("ctype"):
@@ -149,7 +149,25 @@ def make_validator(name):
 
 
 # ----------------------------------------------------------------------------- projection
+KNOWN_PLAINTEXTS = []  # candidate plaintexts for recognising digests (filled by the drivers)
+
+
+def digest_leaf(cinco, dv):
+    """Abstract form of a DigestValue: which known plaintext hashes to it with its salt."""
+    import hashlib
+
+    alg = dv.algorithm
+    name = {v: k for k, v in cinco.fields.ChallengeField.ALGORITHMS.items()}.get(alg, "?")
+    for pt in KNOWN_PLAINTEXTS:
+        raw = pt.encode() if isinstance(pt, str) else pt
+        if alg(dv.salt + raw).digest() == dv.digest and len(dv.salt) == alg().digest_size:
+            return {"t": "digest", "alg": name, "pt": codec.to_abs(pt)}
+    return {"t": "digest", "alg": name, "pt": {"t": "obj", "n": "unknown-plaintext"}}
+
+
 def project_value(cinco, v, root=None):
+    if isinstance(v, cinco.fields.DigestValue):
+        return digest_leaf(cinco, v)
     if isinstance(v, cinco.Config):
         return project_cfg(cinco, v, root)
     if isinstance(v, list):
